@@ -41,6 +41,7 @@ namespace pika::experimental {
         /// \brief Wait for the event to occur.
         void wait()
         {
+            PIKA_VERIF_POINT("event.wait", this, 0, 0);
             if (event_.load(std::memory_order_acquire)) return;
 
             std::unique_lock<mutex_type> l(mtx_);
@@ -50,7 +51,9 @@ namespace pika::experimental {
         /// \brief Release all threads waiting on this semaphore.
         void set()
         {
+            PIKA_VERIF_POINT("event.set", this, 0, 0);
             event_.store(true, std::memory_order_release);
+            PIKA_VERIF_POST("event.stored", this, 1, 0);
 
             std::unique_lock<mutex_type> l(mtx_);
             set_locked(std::move(l));
